@@ -107,7 +107,7 @@ def cexMM : Inst :=
 theorem reward_minmax_counterexample : ¬ reward_statement .minmax := by
   intro h
   have := h cexMM [0, 2, 4, 0, 1, 3, 5] (exec env cexMM (env.reset cexMM) [0, 2, 4, 0, 1, 3, 5])
-    ⟨by decide, by decide, by decide, by decide, by decide⟩
+    ⟨by decide, by decide, by decide, by decide, by decide, by decide⟩
     ((run_iff_admitted _ _ _ _ _).2 ⟨by decide, rfl⟩) (by decide) (by unfold Feasible; decide)
   revert this; decide
 
@@ -115,7 +115,7 @@ theorem reward_minmax_counterexample : ¬ reward_statement .minmax := by
 theorem reward_lateness_counterexample : ¬ reward_statement .lateness := by
   intro h
   have := h cexMM [0, 2, 4, 0, 1, 3, 5] (exec env cexMM (env.reset cexMM) [0, 2, 4, 0, 1, 3, 5])
-    ⟨by decide, by decide, by decide, by decide, by decide⟩
+    ⟨by decide, by decide, by decide, by decide, by decide, by decide⟩
     ((run_iff_admitted _ _ _ _ _).2 ⟨by decide, rfl⟩) (by decide) (by unfold Feasible; decide)
   revert this; decide
 
@@ -128,7 +128,7 @@ def cexClose : Inst :=
 theorem reward_minsum_close_counterexample : ¬ reward_statement .minsum := by
   intro h
   have := h cexClose [0, 1, 2] (exec env cexClose (env.reset cexClose) [0, 1, 2])
-    ⟨by decide, by decide, by decide, by decide, by decide⟩
+    ⟨by decide, by decide, by decide, by decide, by decide, by decide⟩
     ((run_iff_admitted _ _ _ _ _).2 ⟨by decide, rfl⟩) (by decide) (by unfold Feasible; decide)
   revert this; decide
 
